@@ -3,6 +3,8 @@ mod c05;
 mod c06;
 mod c08;
 mod c09;
+mod c10;
+mod reffront;
 mod refkiki;
 mod corpus;
 mod reflex;
@@ -50,6 +52,7 @@ fn main() {
                 "C06" => c06::run(&ctx),
                 "C08" => c08::run(&ctx),
                 "C09" => c09::run(&ctx),
+                "C10" => c10::run(&ctx),
                 "C04" => gramsweep::run_c04(&ctx),
                 "C11" => gramsweep::run_c11(&ctx),
                 "C17" => gramsweep::run_c17(&ctx),
